@@ -93,10 +93,12 @@ enum {
     VC_CUTS,
     VC_MIX,
     VC_ZOOM,
+    VC_SPLITV, /* top half incompressible noise, bottom half flat: tiles of very different sizes */
+    VC_SPLITH, /* left half noise, right half flat */
     VC_KINDS
 };
 static const char *const v_content_names[VC_KINDS] = {
-    "flat", "extreme", "gradient", "noise", "pan", "rects", "screen", "cuts", "mix", "zoom"};
+    "flat", "extreme", "gradient", "noise", "pan", "rects", "screen", "cuts", "mix", "zoom", "splitv", "splith"};
 
 static int v_content_kind(const char *name) {
     for (int i = 0; i < VC_KINDS; i++)
@@ -179,6 +181,8 @@ static uint32_t v_sample(int kind, uint64_t seed, int plane, int x, int y, int i
         static const int kinds[4] = {VC_PAN, VC_RECTS, VC_GRADIENT, VC_SCREEN};
         return v_sample(kinds[sub], seed + (uint64_t)scene * 7919, plane, x, y, idx, w, h);
     }
+    case VC_SPLITV: return y < h / 2 ? v_sample(VC_NOISE, seed, plane, x, y, idx, w, h) : 128;
+    case VC_SPLITH: return x < w / 2 ? v_sample(VC_NOISE, seed, plane, x, y, idx, w, h) : 128;
     case VC_MIX:
     default: {
         if (x < w / 2 && y < h / 2) return v_sample(VC_PAN, seed, plane, x, y, idx, w, h);
